@@ -52,11 +52,24 @@ type Profile struct {
 	PtyRowsMax     int
 }
 
+// pct is true with probability p/100. rapid's integer generators are biased
+// towards small values (IntRange(0,99) < 35 comes up ~64% of the time), so the
+// number is assembled from fair coin flips instead.
 func pct(t *rapid.T, p int, label string) bool {
 	if p <= 0 {
 		return false
 	}
-	return rapid.IntRange(0, 99).Draw(t, label) < p
+	if p >= 100 {
+		return true
+	}
+	v := 0
+	for i := 0; i < 7; i++ {
+		v <<= 1
+		if rapid.Bool().Draw(t, label) {
+			v |= 1
+		}
+	}
+	return v*100 < p*128
 }
 
 // extremePrios stay above the range pop-completed mode uses for finished bars
